@@ -54,7 +54,12 @@ fn one_at(ctx: &mut Ctx, workers: usize, days: i64, threshold: usize, seed: u64,
             if par != seq {
                 let extra: Vec<String> = par.keys().filter(|k| !seq.contains_key(k)).take(3).map(|d| d.to_string()).collect();
                 let missing: Vec<String> = seq.keys().filter(|k| !par.contains_key(k)).take(3).map(|d| d.to_string()).collect();
-                ctx.fail(input, format!("{} entries (extra {:?}, missing {:?})", par.len(), extra, missing), format!("{} entries equal to the sequential API", seq.len()));
+                let differing: Vec<String> = seq.iter().filter(|(k, v)| par.get(*k).map_or(false, |w| w != *v)).take(3).map(|(d, _)| d.to_string()).collect();
+                ctx.fail(
+                    input,
+                    format!("{} entries (extra {:?}, missing {:?}, same date with different times {:?})", par.len(), extra, missing, differing),
+                    format!("{} entries equal to the sequential API", seq.len()),
+                );
             }
             true
         }
